@@ -205,9 +205,31 @@ class ModuleAstInfo:
             )
             yield (full_scope_name, lineno)
 
-        for child in ast.iter_child_nodes(scope_node):
+        yield from cls._get_nested_scope_names(scope_node, full_scope_name)
+
+    @classmethod
+    def _get_nested_scope_names(
+        cls,
+        node: ast.AST,
+        parent_scope: str,
+    ) -> Iterable[tuple[str, int]]:
+        """Get the names of the scopes that are nested in a node.
+
+        Scopes are not only direct children of other scopes, they can also be defined
+        inside compound statements such as ``if`` or ``try`` blocks.
+
+        Args:
+            node: The AST node.
+            parent_scope: The name of the scope that contains the node.
+
+        Returns:
+            The scope names and line numbers.
+        """
+        for child in ast.iter_child_nodes(node):
             if isinstance(child, ScopeNode):
-                yield from cls._get_scope_names(child, full_scope_name)
+                yield from cls._get_scope_names(child, parent_scope)
+            else:
+                yield from cls._get_nested_scope_names(child, parent_scope)
 
     @classmethod
     def _find_lines_in_ast(
